@@ -8,15 +8,23 @@
    [bfun basis a] that the evaluation MODEL returns are such functions, and pd3 o (bfun basis a) is what the
    derivative MODEL returns (Proofs/SameFunRealP.closed_deriv_model).
 
-     1. smooth3, smooth3_dfun, smooth3_bfun    every mixed partial of the model's basis functions is differentiable
-        GR_closed                              d/dr_k [r |-> G(o1,o2)(r)] = G(o1+e_k,o2)(r) + G(o1,o2+e_k)(r)   (is_derive)
-     2. pd3_is_drho                            pd3 L rho = eval (drho L)        every order triple L
-        deriv_density_real                     the l_x <= L_x/2 shortcut of evaluate_deriv_density = pd3 L rho   (symmetric P)
+     0. smooth3, smooth3_dfun, smooth3_bfun    every mixed partial of the model's basis functions is differentiable
+     1. closed, closed_DF, pd3_closed          families H o1 o2 : R^3 -> R whose partial derivatives are given by the
+        pd3_is_drho                            product rule; pd3 L (H 0 0) = DensityJets.eval (drho L), every order triple
+     2. GR, rhoR, gammaR, GR_closed            G(o1,o2)(r) = sum_ab P_ab pd3 o1 f_a(r) pd3 o2 f_b(r):
+                                               d/dr_k [r |-> G(o1,o2)(r)] = G(o1+e_k,o2)(r) + G(o1,o2+e_k)(r)   (is_derive)
+        pd3_tower, pd3_rsum, GR_is_deriv_gamma G(o1,o2)(r) = d^o1_r d^o2_r' gamma(r,r') at r' = r
+     3. density_real, leibniz_real, deriv_density_real (the l_x <= L_x/2 shortcut = pd3 L rho, symmetric P, EVERY L),
         grad_real / lap_real / hess_real       gradient / Laplacian / Hessian models = real gradient / Laplacian /
-                                               Hessian of rho; schwarz_rho (symmetry of second partials) from hess_sym
-     3. evR_dk                                 is_derive of the value of ANY combination of Gauss/Jets.v
-        stress_formula_real, force_is_minus_div_stress_real, hessian_is_jacobian_of_force_real
-     4. rho_nonneg_real, ked_nonneg_real       P = C C^T
+                                               Hessian of rho; schwarz_rho (symmetry of second partials) from hess_sym;
+        hess_trace_real, ked_real, gked_real
+     4. evR_dk                                 is_derive of the value of ANY combination of Gauss/Jets.v
+        stress_formula_real, stress_sym_real, force_is_minus_div_stress_real, hessian_is_jacobian_of_force_real,
+        hessian_symmetrised_real
+     5. gram_psd, rho_nonneg_real, ked_nonneg_real   P = C C^T
+     6. Gb, rhob, tplusb, gammab, jet_instance the instance f_a := bfun basis a (evaluation MODEL), phi = bdfun (derivative MODEL)
+     7. ex_basis_sp, ex_P                      an s + p basis, rank-2 P: the hypotheses hold
+   Nothing is partial: items 1-4 of the task are proved at full strength (all orders, all well-formed bases).
    Assumptions: the classical real numbers of the standard library (as in every Coquelicot development). *)
 From Coq Require Import Reals Lra Lia List Arith QArith Qcanon Qreals.
 From Coquelicot Require Import Coquelicot.
